@@ -3,7 +3,7 @@ import VlsModel.Model.Secrets
 /-
 Executable model of the per-channel enforcement state machine (properties C01, C02, C03).
 
-Code modelled (after the `fix:` commits 208b946 and 9d527cd):
+Code modelled (after the `fix:` commits 208b946, 9d527cd and 0078200):
 * vls-core/src/channel.rs — `ChannelStub::{get_per_commitment_point, get_per_commitment_secret,
   get_per_commitment_secret_or_none}`, `Channel::{get_per_commitment_point, get_per_commitment_secret,
   get_per_commitment_secret_or_none, validate_holder_commitment_tx(_phase2), release_commitment_secret,
@@ -25,9 +25,9 @@ Code modelled (after the `fix:` commits 208b946 and 9d527cd):
   `GetPerCommitmentPoint(2)` as compositions of the above, by protocol version.
 
 Conventions: commitment numbers are `u64` (`Nat` here, the driver feeds values ≤ 2^64-1).  Where the
-Rust code computes `x + k` on a request-supplied number the model returns the explicit outcome
-`panic` when the sum exceeds `u64::MAX` (debug build; the harness is a debug build).  The release
-build wraps instead: see `getSecretWrapGuard` and `Props/C01.lean` (finding F13).
+Rust code computes `x + k` with a plain `+` on a request-supplied number the model returns the explicit
+outcome `panic` when the sum exceeds `u64::MAX` (debug build; the harness is a debug build).  The
+secret-release guards use checked / saturating arithmetic since fix 0078200 and never panic.
 External facts are operation parameters: `sigsValid` (real ECDSA verification of the counterparty
 signatures on the recomposed transactions), `policyOk` (content rules), `pt` of a revocation secret
 (`PublicKey::from_secret_key`), commitment contents and points as small naturals (equality only).
@@ -127,20 +127,17 @@ def getSecret (c : Chan) (n : Nat) : Out :=
   match c.slot with
   | .stub => { res := .errPolicy }
   | .ready =>
-    if n + 2 > U64.MAX then { res := .panic }          -- `commitment_number + 2` overflows (debug build)
+    -- `commitment_number.checked_add(2).map_or(true, |n| n > next)` (fix 0078200)
+    if n + 2 > U64.MAX then { res := .errPolicy }
     else if n + 2 > c.next then { res := .errPolicy }
     else { res := .ok, secret := some n }
-
-/-- the guard of `get_per_commitment_secret` as a release build evaluates it (wrapping `+`):
-    `true` = the secret is released. -/
-def getSecretWrapGuard (next n : Nat) : Bool := !(U64.wrapAdd n 2 > next)
 
 /-- `get_per_commitment_secret_or_none`: `res = ok` with `secret = none` models `None` -/
 def getSecretOrNone (c : Chan) (n : Nat) : Out :=
   match c.slot with
   | .stub => { res := .ok }
   | .ready =>
-    if n + 2 > U64.MAX then { res := .panic }
+    if n + 2 > U64.MAX then { res := .ok }              -- checked_add overflow: `None`
     else if n + 2 > c.next then { res := .ok }
     else { res := .ok, secret := some n }
 
@@ -169,8 +166,8 @@ def validate (c : Chan) (n info : Nat) (sigsValid policyOk : Bool) : R :=
 
 /-- `release_commitment_secret(n)`: the point of `n+1` and, for `n ≥ 1`, the secret of `n-1` -/
 def release (c : Chan) (n : Nat) : Out :=
-  if n + 1 > U64.MAX then { res := .panic }
-  else if getPoint c (n + 1) ≠ .ok then { res := .errPolicy }
+  -- `get_per_commitment_point(commitment_number.saturating_add(1))` (fix 0078200)
+  if getPoint c (U64.satAdd n 1) ≠ .ok then { res := .errPolicy }
   else if n ≥ 1 then getSecret c (n - 1)
   else { res := .ok }
 
@@ -183,6 +180,8 @@ def revoke (c : Chan) (n : Nat) : R :=
   | some info =>
     -- `next_holder_commit_info = None`, then `advance_holder_commitment_state`:
     -- `Validator::set_next_holder_commit_num(n + 1)` accepts `n + 1 = current + 1`
+    -- `new_current_commitment_number + 1` in `advance_holder_commitment_state` is a plain `+`
+    if n + 1 > U64.MAX then { c := { c with nextInfo := none }, out := { res := .panic } } else
     let c' := { c with nextInfo := none, next := n + 1, cur := some info }
     let o := release c' n
     if o.res = .ok then { c := c', out := o, persisted := true }
